@@ -197,6 +197,7 @@ type Obs struct {
 	Client int
 	Epoch  int
 	Rx     bool
+	Auto   bool // sent by the scripted client's reaction logic, not by a scenario step
 	P      *mpkt
 }
 
@@ -241,6 +242,56 @@ type simClient struct {
 	pingResp  int
 	lastTxAt  int64
 	sid       string
+}
+
+// recvRec: what a node emitted (its own local updates, src "emit") or was handed (gossip,
+// push-pull), decoded from the real bytes. Per-node knowledge = LWW fold over these.
+type kEntry struct {
+	Key   string // R|topic, U|pattern|session, S|session
+	Stamp int64
+	Live  bool
+	Val   string
+}
+type recvRec struct {
+	Ord     int64
+	AtMs    int64
+	Node    int
+	Src     string
+	Entries []kEntry
+}
+
+func decodeEntries(b []byte) []kEntry {
+	ev := &api.StateBroadcastEvent{}
+	if proto.Unmarshal(b, ev) != nil {
+		return nil
+	}
+	var out []kEntry
+	for _, r := range ev.RetainedMessages {
+		if r.Publish == nil {
+			continue
+		}
+		st, live := stampOf(r.LastAdded, r.LastDeleted)
+		out = append(out, kEntry{Key: "R|" + string(r.Publish.Topic), Stamp: st, Live: live, Val: string(r.Publish.Payload)})
+	}
+	for _, u := range ev.Subscriptions {
+		st, live := stampOf(u.LastAdded, u.LastDeleted)
+		out = append(out, kEntry{Key: "U|" + string(u.Pattern) + "|" + u.SessionID, Stamp: st, Live: live, Val: fmt.Sprintf("%d|%d", u.Peer, u.QoS)})
+	}
+	for _, m := range ev.SessionMetadatas {
+		st, live := stampOf(m.LastAdded, m.LastDeleted)
+		out = append(out, kEntry{Key: "S|" + m.SessionID, Stamp: st, Live: live, Val: fmt.Sprintf("%s|%d|%s", m.ClientID, m.Peer, m.MountPoint)})
+	}
+	return out
+}
+
+func (w *world) noteRecv(node int, src string, payloads ...[]byte) {
+	var es []kEntry
+	for _, b := range payloads {
+		es = append(es, decodeEntries(b)...)
+	}
+	if len(es) > 0 {
+		w.recv = append(w.recv, recvRec{Ord: w.evOrd, AtMs: w.nowMs(), Node: node, Src: src, Entries: es})
+	}
 }
 
 // ---------------------------------------------------------------------------------------
@@ -317,6 +368,9 @@ type world struct {
 	rpcStarted []rpcRec
 	viewAt     map[int][]string // publish step -> listing of the publisher's node at that instant
 	pingKnow   map[int64]pingKnowledge
+	evOrd       int64             // ordinal of the event being applied
+	stepOrd     []int64           // ordinal at which each scenario step was applied
+	recv        []recvRec         // every replicated-state update a node emitted or was given
 	knownAtStop map[int]map[string]bool // survivor -> session ids it listed when a node was stopped
 	stopAt      map[int]int64
 	rpcLogged  int
@@ -674,6 +728,7 @@ func (w *world) run(hooks profileHooks) {
 	}
 	w.stepAt = make([]int64, len(c.Steps))
 	w.stepEnd = make([]int64, len(c.Steps))
+	w.stepOrd = make([]int64, len(c.Steps))
 	limit := c.knob("max_sim_ms", 3_600_000)
 	nEvents := 0
 	for w.events.Len() > 0 {
@@ -746,10 +801,12 @@ const settleDur = 4000
 func (e *event) extraDur() int64 { return int64(e.j) }
 
 func (w *world) apply(e *event) {
+	w.evOrd++
 	switch e.kind {
 	case "step":
 		w.curStep = e.step
 		w.stepAt[e.step] = w.nowMs()
+		w.stepOrd[e.step] = w.evOrd
 		s := &w.c.Steps[e.step]
 		w.orderH = append(w.orderH, fmt.Sprintf("%s/%d/%d", s.K, s.C, s.N))
 		w.applyStep(e, s)
@@ -775,6 +832,7 @@ func (w *world) apply(e *event) {
 		for _, m := range e.data {
 			dst.dstate.Distributor().NotifyMsg(m)
 		}
+		w.noteRecv(dst.idx, "gossip", e.data...)
 		w.statAdd("gossip.delivered", int64(len(e.data)))
 	case "pushpullall":
 		w.pushPullAll()
@@ -785,6 +843,12 @@ func (w *world) apply(e *event) {
 			cl.conn.feed(e.pkt)
 			cl.lastTxAt = w.nowMs()
 			w.orderH = append(w.orderH, fmt.Sprintf("tx%d", e.i))
+			if len(e.pkt) == 4 { // a scripted acknowledgement: type, length 2, packet id
+				w.mu.Lock()
+				w.obs = append(w.obs, Obs{Step: w.curStep, AtMs: w.nowMs(), Stamp: atomic.AddInt64(&w.stamp, 1), Client: cl.idx, Epoch: cl.epoch, Auto: true,
+					P: &mpkt{Type: int(e.pkt[0] >> 4), Pid: int(e.pkt[2])<<8 | int(e.pkt[3])}})
+				w.mu.Unlock()
+			}
 		}
 	case "leave":
 		obs, dead := w.nodes[e.i], e.j
@@ -1261,6 +1325,7 @@ func (w *world) gossipFrom(n *simNode) {
 	for i, m := range msgs {
 		cp[i] = append([]byte(nil), m...)
 	}
+	w.noteRecv(n.idx, "emit", cp...)
 	drop := w.c.knob("gossip_drop_pct", 0)
 	dup := w.c.knob("gossip_dup_pct", 0)
 	maxd := w.c.knob("gossip_maxdelay_ms", 30)
@@ -1313,6 +1378,8 @@ func (w *world) pushPull(a, b int) {
 	sb := nb.dstate.Distributor().LocalState(false)
 	nb.dstate.Distributor().MergeRemoteState(sa, false)
 	na.dstate.Distributor().MergeRemoteState(sb, false)
+	w.noteRecv(b, "pushpull", sa)
+	w.noteRecv(a, "pushpull", sb)
 	w.statAdd("pushpull", 1)
 	w.logf("pushpull %d<->%d", a, b)
 	w.orderH = append(w.orderH, fmt.Sprintf("pp%d-%d", a, b))
